@@ -408,6 +408,7 @@ class SignalNamespace:
     """
     def __init__(self, name_dict, reserved_keywords=set()):
         self.counts        = {k: 1 for k in reserved_keywords}
+        self.names         = set()
         self.sigs          = {}
         self.name_dict     = name_dict
         self.clock_domains = dict()
@@ -450,6 +451,10 @@ class SignalNamespace:
         n = self.sigs.get(sig)
         if n is None:
             n = self.counts.get(sig_name, 0)
+            # Skip numbers that would produce a name already handed out (ex: x, x and a signal named x_1).
+            while (f"{sig_name}_{n}" if n > 0 else sig_name) in self.names:
+                n += 1
+            self.names.add(f"{sig_name}_{n}" if n > 0 else sig_name)
             self.sigs[sig] = n
             self.counts[sig_name] = n + 1
         # If the count is greater than 0, append it to the signal name.
